@@ -186,6 +186,29 @@ frag("round_robin_next", "utils/utils.py",
      lambda t: Tr(env={"i": "i", "edges": None}).z(_rr(t)), "((i + 1) mod n_edges)", kind="rr")
 
 
+def slot_order(tree, cls, pull_attr):
+    """statement order in <cls>.behaviour: is the worker slot requested (self.worker_thread.request())
+    textually before the first call of <pull_attr> (reserve_get / get with one argument) on an in-edge?"""
+    fn = find(tree, cls, "behaviour")
+    req, pull = [], []
+    for n in ast.walk(fn):
+        if isinstance(n, ast.Call) and isinstance(n.func, ast.Attribute):
+            recv = ast.unparse(n.func.value)
+            if n.func.attr == "request" and recv == "self.worker_thread":
+                req.append((n.lineno, n.col_offset))
+            if n.func.attr == pull_attr and ("edge" in recv or "outstore" in recv) and \
+                    len(n.args) == (0 if pull_attr == "reserve_get" else 1) and not n.keywords:
+                pull.append((n.lineno, n.col_offset))
+    if not req or not pull:
+        raise Unsupported("%s.behaviour: no slot request or no %s call found" % (cls, pull_attr))
+    return "true" if min(req) < min(pull) else "false"
+
+
+frag("Machine_slot_before_reserve", "nodes/machine.py", lambda t: slot_order(t, "Machine", "reserve_get"), "true", kind="const")
+frag("Combiner_slot_before_reserve", "nodes/combiner.py", lambda t: slot_order(t, "Combiner", "reserve_get"), "true", kind="const")
+frag("Splitter_slot_before_get", "nodes/splitter.py", lambda t: slot_order(t, "Splitter", "get"), "true", kind="const")
+
+
 def state_rep_cond(tree, state):
     """the test of the `if` in Machine.update_state_rep whose body charges the elapsed time to [state]"""
     fn = find(tree, "Machine", "update_state_rep")
@@ -381,6 +404,8 @@ def main():
             status, why, text = "fallback", "%s: %s" % (type(ex).__name__, ex), fr["fallback"]
         if fr["kind"] == "rr":
             out.append("Definition %s (i n_edges : Z) : Z := %s." % (fr["name"], text))
+        elif fr["kind"] == "const":
+            out.append("Definition %s : bool := %s." % (fr["name"], text))
         elif fr["kind"] == "pb":
             out.append("Definition %s (p b : Z) : bool := %s." % (fr["name"], text))
         else:
